@@ -33,6 +33,10 @@ pub use allocator::PageNumber;
 pub(crate) use ops::overflow::verif_total_needed_pages;
 #[cfg(feature = "verif-hooks")]
 pub(crate) use ops::verif_branch;
+#[cfg(feature = "verif-hooks")]
+pub(crate) use ops::verif_leaf;
+#[cfg(feature = "verif-hooks")]
+pub(crate) use ops::verif_leaf_constants;
 use index::Index;
 pub use iterator::BeatreeIterator;
 use leaf_cache::LeafCache;
